@@ -58,10 +58,12 @@ def gen(rng, depth, in_tr):
         st['sattr'] = rng.choice(['Tit le', 'Hello  there', 'x &amp; y', ''])
         if rng.random() < .6:
             st['i18nattr'] = rng.choice([None, 'tid'])
+            st['i18npad'] = rng.randrange(28)
         if st['sattr'] == '':
             # an attribute that is empty as written: with an explicit message id it is translated like any other
             # (without one the statement does not say whether '' is a message)
             st['i18nattr'] = 'tid'
+            st['i18npad'] = rng.randrange(28)
     if 'translate' in st and st['translate'] == '' and rng.random() < .15:
         st['content'] = True         # tal:content="v" + i18n:translate=""
     kids = []
@@ -104,7 +106,11 @@ def ser(n):
     if 'sattr' in st:
         a += ' title="%s"' % st['sattr']
     if 'i18nattr' in st:
-        a += ' i18n:attributes="title%s"' % ('' if st['i18nattr'] is None else ' ' + st['i18nattr'])
+        # white space around the items of the statement (a blank or a line break before the closing
+        # quote, several blanks between name and id) is no part of a name or of a message id
+        pad = ['', '', ' ', '\t', '\n   ', '  ', '\n'][st.get('i18npad', 0) % 7]
+        gap = [' ', ' ', '  ', '\n  '][st.get('i18npad', 0) % 4]
+        a += ' i18n:attributes="title%s%s"' % ('' if st['i18nattr'] is None else gap + st['i18nattr'], pad)
     if 'translate' in st:
         a += ' i18n:translate="%s"' % st['translate']
     if 'content' in st:
@@ -523,7 +529,8 @@ def layer_abandoned_settings(ctx, n):
     for case in range(n):
         kind = rng.choice(['target-expression-fails-half-way', 'target-set-then-body-fails', 'domain-set-then-body-fails',
                            'context-set-then-body-fails', 'target-expression-yields-object', 'target-expression-inserts-an-object',
-                           'target-expression-inserts-two-objects'])
+                           'target-expression-inserts-two-objects', 'fallback-object-after-descendant-settings',
+                           'fallback-object-after-descendant-settings', 'fallback-object-after-failed-inner-fallback'])
         outer = rng.choice([None, 'fr', 'it'])
         calls = []
 
@@ -547,6 +554,15 @@ def layer_abandoned_settings(ctx, n):
         elif kind == 'target-expression-inserts-two-objects':
             inner = '<p i18n:target="string:${lo1}${lo2}"><b i18n:translate="">in</b></p>'
             inner_calls = [('OBJECT:d', None, None, outer), ('OBJECT:e', None, None, outer), ('in', None, None, 'de')]
+        elif kind == 'fallback-object-after-descendant-settings':
+            # the fallback value is inserted in place of the element: what a descendant had set is gone with the descendant
+            sets = rng.choice([('i18n:domain="dd"', ('dd', None, outer)), ('i18n:context="cc"', (None, 'cc', outer)),
+                               ('i18n:target="\'de\'"', (None, None, 'de')), ('i18n:domain="dd" i18n:target="\'de\'"', ('dd', None, 'de'))])
+            inner = '<p tal:on-error="lo1"><q %s><b i18n:translate="">in</b>${1/0}</q></p>' % sets[0]
+            inner_calls = [('in',) + sets[1], ('OBJECT:d', None, None, outer)]
+        elif kind == 'fallback-object-after-failed-inner-fallback':
+            inner = '<p tal:on-error="lo1"><q i18n:domain="dd" tal:on-error="lo2.nosuchattribute"><b i18n:translate="">in</b>${1/0}</q></p>'
+            inner_calls = [('in', 'dd', None, outer), ('OBJECT:d', None, None, outer)]
         elif kind == 'target-expression-fails-half-way':
             inner = '<p tal:on-error="string:E" i18n:target="string:${first}_${nosuchname}"><b i18n:translate="">in</b></p>'
             inner_calls = []
@@ -564,7 +580,7 @@ def layer_abandoned_settings(ctx, n):
             inner_calls = [('in', None, None, 'de')]
         src = '<r><i i18n:translate="">before</i>%s<i i18n:translate="">after</i></r>' % inner
         want_calls = [('before', None, None, outer)] + inner_calls + [('after', None, None, outer)]
-        body = '<p>E</p>' if 'on-error' in inner else '<p><b>[in]</b></p>'
+        body = '<p>d</p>' if kind.startswith('fallback-object') else '<p>E</p>' if 'on-error' in inner else '<p><b>[in]</b></p>'
         want = '<r><i>[before]</i>%s<i>[after]</i></r>' % body
         try:
             got = PageTemplate(src, translate=tr)(first='de', target_language=outer, **objs)
